@@ -32,8 +32,22 @@ def discover_roles(F, E, cls):
             if isinstance(rhs, dict) and rhs.get("k") == "var" and rhs.get("id") in pid:
                 role[pid[rhs["id"]]] = path[1]
     if set(role) != {0, 1, 2, 3}:
+        # the stores may sit in a private helper: follow the calls with the provenance interpretation
+        from ..own import Sim, Unknown
+        S = Sim(F, cls, {"ptr": {}, "self": False}, {}, [], False, params={p["id"]: ("arg", k) for k, p in enumerate(f["params"])}, lenient=True)
+        try:
+            S.run(f)
+        except Unknown as ex:
+            raise Broken("cannot bind the four inputs of setInitState to members in %s: %s" % (cls, ex))
+        role = {}
+        for st_ in S.finals:
+            for m_, v in st_.items():
+                if isinstance(v, tuple) and v[0] == "arg":
+                    role[v[1]] = m_
+    if set(role) != {0, 1, 2, 3}:
         raise Broken("cannot bind the four inputs of setInitState to members in %s: %s" % (cls, role))
-    for path, how, node in E.function_writes_local(f):
+    helpers = [f] + [g_ for g_ in F.reachable(f, stop=lambda h: h.get("cls") != cls) if g_.get("cls") == cls]
+    for path, how, node in [w for g_ in helpers for w in E.function_writes_local(g_)]:
         if path[0] == "this" and len(path) == 2 and path[1] not in role.values():
             rhs = write_rhs(node)
             if rhs and any(n.get("k") == "call" and callee(n).get("name") == "size" and is_this_mem(n.get("obj"), role[0]) for n in walk(rhs)):
@@ -48,10 +62,11 @@ def collect_guards(F, f, errors_id, sc):
     out = []
     lambdas = {}
     inl = []
+    errors_ids = {errors_id}
 
     def is_push(n):
         return (n.get("k") == "call" and callee(n).get("name") in ("push_back", "emplace_back") and
-                isinstance(n.get("obj"), dict) and n["obj"].get("k") == "var" and n["obj"]["id"] == errors_id)
+                isinstance(n.get("obj"), dict) and n["obj"].get("k") == "var" and n["obj"]["id"] in errors_ids)
 
     def rec(s, loops, dnf):
         if s is None:
@@ -80,6 +95,22 @@ def collect_guards(F, f, errors_id, sc):
                     sc.local_init[p_["id"]] = a_
                 inl.append(1)
                 rec(sp_["body"], loops, dnf)
+                inl.pop()
+                return
+            # a call of a private helper of the same class that is handed the error list: its body is checked in place
+            g_ = F.by_fid.get(callee(e0).get("fid")) if e0.get("k") == "call" else None
+            if g_ is not None and g_.get("cls") == f.get("cls") and g_.get("body") is not None and any(
+                    isinstance(a_, dict) and strip_copy(a_).get("k") == "var" and strip_copy(a_).get("id") in errors_ids for a_ in e0.get("args", [])):
+                if len(inl) > 8:
+                    raise Broken("validity check: helper nesting too deep")
+                for p_, a_ in zip(g_["params"], e0.get("args", [])):
+                    a0 = strip_copy(a_)
+                    if isinstance(a0, dict) and a0.get("k") == "var" and a0.get("id") in errors_ids:
+                        errors_ids.add(p_["id"])
+                    else:
+                        sc.local_init[p_["id"]] = a_
+                inl.append(1)
+                rec(g_["body"], loops, dnf)
                 inl.pop()
                 return
             for n in walk(s["e"]):
@@ -301,7 +332,7 @@ def check_init_state(chk, F, E, cls, roles, cv):
                     else:
                         verdict = "other"
                 elif fld in inputs:
-                    if verdict == "check":
+                    if verdict in ("check", "check-true", "check-false"):
                         verdict = "stale"
         return [(verdict, msg)]
 
@@ -309,9 +340,24 @@ def check_init_state(chk, F, E, cls, roles, cv):
         # the other overload is followed; the validity check itself is summarised by the transfer above
         return g.get("cls") == cls and g["name"] == "setInitState"
 
+    def branch(cond, pol, st, ctx):
+        # a test of the stored verdict right after it was assigned from the validity check splits it into its two values
+        verdict, msg = st
+        c = strip_copy(cond)
+        neg = False
+        while isinstance(c, dict) and c.get("k") == "un" and c.get("op") == "!":
+            c = strip_copy(c["e"])
+            neg = not neg
+        if isinstance(c, dict) and c.get("k") == "mem" and is_this_mem(c) and c["field"] in bool_fields and verdict in ("check", "check-true", "check-false"):
+            val = pol != neg
+            if verdict == "check":
+                return [("check-true" if val else "check-false", msg)]
+            return [(verdict, msg)] if (verdict == "check-true") == val else []
+        return [st]
+
     for f in F.funcs(cls, "setInitState"):
         chk.saw(f)
-        fl = Flow(F, transfer, enter_call=enter)
+        fl = Flow(F, transfer, branch=branch, enter_call=enter)
         out, exits = fl.run(f, ("unset", "stale"))
         if out:
             raise Broken("setInitState can fall off its end")
@@ -319,13 +365,16 @@ def check_init_state(chk, F, E, cls, roles, cv):
             e = strip_copy(r.get("e"))
             v = lit_value(e)
             if v == "false":
-                ok = verdict == "false" and msg == "set"
+                ok = (verdict == "false" and msg == "set") or (verdict == "check-false" and msg == "per-check")
                 why = "returns false with stored verdict '%s' and message state '%s' (need verdict false and a message set)" % (verdict, msg)
+            elif v == "true":
+                ok = verdict == "check-true" and msg == "per-check"
+                why = "returns true with stored verdict '%s' and message state '%s' (need: the validity check just returned true)" % (verdict, msg)
             elif isinstance(e, dict) and e.get("k") == "mem" and e["field"] in bool_fields and is_this_mem(e):
-                ok = verdict == "check" and msg == "per-check"
+                ok = verdict in ("check", "check-true", "check-false") and msg == "per-check"
                 why = "returns the stored verdict; verdict state '%s', message state '%s' (need: assigned from the validity check after the last input write, message cleared on entry)" % (verdict, msg)
             elif isinstance(e, dict) and e.get("k") == "call" and callee(e).get("name") == "setInitState":
-                ok = verdict == "check" and msg == "per-check"
+                ok = verdict in ("check", "check-true", "check-false") and msg == "per-check"
                 why = "delegates to the durations overload; resulting verdict state '%s', message state '%s'" % (verdict, msg)
             else:
                 ok = False
